@@ -159,3 +159,177 @@ LEMMAS = [L.SmtLemma("sum-update", _sum_update_lemma, note="induction on the upp
 ASSUMPTIONS = ["numpy result vectors treated component-wise as reals (only vector-space operations are applied to them)",
                "grid.integrate is an uninterpreted function of (levelvector, start, end)",
                "the whole evaluate_operation / compute_solutions / apply_remove pipeline and the re-entry of continue_adaptive_refinement: layer B"]
+
+
+# --------------------------------------------------------------------------- the accumulation pass: SpatiallyAdaptivBase.compute_solutions
+BASE = "sparseSpACE/spatiallyAdaptiveBase.py"
+LVF = z3.Function("coarsened_level", P.U, I, P.U)        # coarsen_grid's level vector for (component grid level vector, area number)
+DOF = z3.Function("computed", P.U, I, z3.BoolSort())     # coarsen_grid's decision whether the grid is computed for the area
+T1 = z3.Function("AreaPrefixSum", I, I, R)               # T1(g,k): contribution of component grid g to the first k areas
+T2 = z3.Function("GridPrefixSum", I, R)                  # T2(g): contribution of the first g component grids to all areas
+COL = z3.Function("AreaColumnSum", I, I, R)              # COL(g,k): contribution of the first g component grids to area k
+
+
+def strategy(S):
+    ng, na = S.int("n_grids"), S.int("n_areas")
+    S.assume(ng >= 0)
+    S.assume(na >= 0)
+    scheme = ObjSeq("ComponentGridInfo", ng, dict(levelvector=S.array("scheme.levelvector", I, P.U), coefficient=S.array("scheme.coefficient", I, R)))
+    areas = ObjSeq("RefinementObjectExtendSplit", na, dict(start=S.array("area.start", I, P.U), end=S.array("area.end", I, P.U), value=S.array("area.value", I, R)))
+    op = Obj("Integration", dict(grid=Obj("TrapezoidalGrid", {}), f=None, integral=S.real("integral")))
+    cont = Obj("RefinementContainer", dict(value=S.real("container.value")))
+    s = Obj("SpatiallyAdaptiveExtendScheme", dict(scheme=scheme, operation=op, refinement=cont, grid=Obj("TrapezoidalGrid", {})))
+    return s, areas
+
+
+def q(scheme0, areas0, g, k):
+    """coefficient * component quadrature of grid g on area k (0 when coarsen_grid decides not to compute it)"""
+    lv = z3.Select(scheme0.fields["levelvector"], g)
+    c = z3.Select(scheme0.fields["coefficient"], g)
+    integ = INTEG(LVF(lv, k), z3.Select(areas0.fields["start"], k), z3.Select(areas0.fields["end"], k))
+    return z3.If(DOF(lv, k), c * integ, z3.RealVal(0))
+
+
+def sum_defs(scheme0, areas0, na):
+    g, k = z3.Ints("dg dk")
+    return [z3.ForAll([g], T1(g, 0) == 0, patterns=[T1(g, 0)]),
+            z3.ForAll([g, k], z3.Implies(k >= 0, T1(g, k + 1) == T1(g, k) + q(scheme0, areas0, g, k)), patterns=[T1(g, k + 1)]),
+            T2(0) == 0,
+            z3.ForAll([g], z3.Implies(g >= 0, T2(g + 1) == T2(g) + T1(g, na)), patterns=[T2(g + 1)]),
+            z3.ForAll([k], COL(0, k) == 0, patterns=[COL(0, k)]),
+            z3.ForAll([g, k], z3.Implies(g >= 0, COL(g + 1, k) == COL(g, k) + q(scheme0, areas0, g, k)), patterns=[COL(g + 1, k)])]
+
+
+class CoarsenGrid(Contract):
+    file, qualname = "sparseSpACE/spatiallyAdaptiveExtendSplit.py", "SpatiallyAdaptiveExtendScheme.coarsen_grid"
+    trusted = True
+    note = ("abstract: returns (level vector, computed?) as a fixed function of (component-grid level vector, area number) during one accumulation pass "
+            "(each pair is visited once; C01 gives distinct level vectors; the local validity of the selection is C07)")
+
+    def inputs(self, S):
+        s, areas = strategy(S)
+        return {"self": s, "levelvector": Opaque(S.const("lv", P.U)), "area": Obj("RefinementObjectExtendSplit", {})}
+
+    def result(self, S, env):
+        area = env["area"]
+        k = area.origin[1]
+        lv = env["levelvector"]
+        lv = lv.term if isinstance(lv, Opaque) else lv
+        return Seq("tuple", [Opaque(LVF(lv, k)), DOF(lv, k)])
+
+
+class EvaluateAreaForCallers(EvaluateArea):
+    """caller-side form of Integration.evaluate_area for an area that is an element of the list of areas (proved as EvaluateArea[area.value set])"""
+    trusted = True
+    note = "proved separately (contract EvaluateArea); caller-side form with the frame on the area element, the container and the operation"
+    modifies = ("integral",)
+
+    def __init__(self):
+        EvaluateArea.__init__(self, False)
+        self.label = "Integration.evaluate_area[caller side]"
+
+    def applies(self, receiver, args):
+        return bool(args) and hasattr(args[0], "origin")
+
+    def havoc(self, S, cenv, tag):
+        from pyvc.engine import set_field
+        set_field(cenv["area"], "value", S.real(tag + ".area.value"))
+        cenv["refinement_container"].fields["value"] = S.real(tag + ".container.value")
+
+    def result(self, S, env):
+        return S.int("evaluations")
+
+    def post(self, S, old, env, result):
+        lv = old["levelvector"]
+        lv = lv.term if isinstance(lv, Opaque) else lv
+        qv = INTEG(lv, old["area"].fields["start"], old["area"].fields["end"])
+        delta = old["componentgrid_info"].fields["coefficient"] * qv
+        return [("area", env["area"].fields["value"] == old["area"].fields["value"] + delta),
+                ("container", env["refinement_container"].fields["value"] == old["refinement_container"].fields["value"] + delta),
+                ("result", env["self"].fields["integral"] == old["self"].fields["integral"] + delta)]
+
+
+for _c in CONTRACTS:
+    if isinstance(_c, EvaluateArea) and not isinstance(_c, EvaluateAreaForCallers):
+        _c.applies = lambda receiver, args: not (bool(args) and hasattr(args[0], "origin"))
+
+
+class TrueQuery(Contract):
+    trusted = True
+
+    def __init__(self, file, qualname, note):
+        self.file, self.qualname, self.note = file, qualname, note
+
+    def inputs(self, S):
+        return {"self": Obj("X", {})}
+
+    def result(self, S, env):
+        return True
+
+
+class ComputeSolutions(Contract):
+    file, qualname = BASE, "SpatiallyAdaptivBase.compute_solutions"
+    label = "SpatiallyAdaptivBase.compute_solutions[extend-split receiver]"
+    inline = ("SpatiallyAdaptivBase.evaluate_operation_area", "evaluate_operation_area")
+
+    def inputs(self, S):
+        s, areas = strategy(S)
+        na = areas.length
+        for ax in sum_defs(s.fields["scheme"], areas, na):
+            S.assume(ax, "def:sums")
+        return {"self": s, "areas": areas, "evaluation_array": S.seq("evaluation_array", na, R, kind="array")}
+
+    def outer(self, S, env, g):
+        old = S.ex.old
+        s, so = env["self"].fields, old["self"].fields
+        gi = g["k"]
+        k = z3.Int("ok")
+        na = old["areas"].length
+        return [("result-accumulated-over-the-processed-grids", s["operation"].fields["integral"] == so["operation"].fields["integral"] + T2(gi)),
+                ("container-total-accumulated", s["refinement"].fields["value"] == so["refinement"].fields["value"] + T2(gi)),
+                ("area-values-accumulated", z3.ForAll([k], z3.Implies(z3.And(k >= 0, k < na), z3.Select(env["areas"].fields["value"], k) ==
+                                                                      z3.Select(old["areas"].fields["value"], k) + COL(gi, k)), patterns=[z3.Select(env["areas"].fields["value"], k)])),
+                ("inputs-untouched", z3.And(env["areas"].fields["start"] == old["areas"].fields["start"], env["areas"].fields["end"] == old["areas"].fields["end"],
+                                            s["scheme"].fields["levelvector"] == so["scheme"].fields["levelvector"], s["scheme"].fields["coefficient"] == so["scheme"].fields["coefficient"],
+                                            V(env["evaluation_array"].len()) == na))]
+
+    def inner(self, S, env, g):
+        old = S.ex.old
+        s, so = env["self"].fields, old["self"].fields
+        gi = env["component_grid"].origin[1]
+        ki = g["k"]
+        k = z3.Int("ik")
+        na = old["areas"].length
+        return [("grid-index", z3.And(gi >= 0, gi < so["scheme"].length)),
+                ("result-accumulated", s["operation"].fields["integral"] == so["operation"].fields["integral"] + T2(gi) + T1(gi, ki)),
+                ("container-total-accumulated", s["refinement"].fields["value"] == so["refinement"].fields["value"] + T2(gi) + T1(gi, ki)),
+                ("area-values-accumulated", z3.ForAll([k], z3.Implies(z3.And(k >= 0, k < na), z3.Select(env["areas"].fields["value"], k) ==
+                                                                      z3.Select(old["areas"].fields["value"], k) + COL(gi, k) + z3.If(k < ki, q(so["scheme"], old["areas"], gi, k), 0)),
+                                                      patterns=[z3.Select(env["areas"].fields["value"], k)])),
+                ("inputs-untouched", z3.And(env["areas"].fields["start"] == old["areas"].fields["start"], env["areas"].fields["end"] == old["areas"].fields["end"],
+                                            s["scheme"].fields["levelvector"] == so["scheme"].fields["levelvector"], s["scheme"].fields["coefficient"] == so["scheme"].fields["coefficient"],
+                                            V(env["evaluation_array"].len()) == na))]
+
+    @property
+    def loops(self):
+        return {0: Loop(inv=lambda S, env, g: self.outer(S, env, g), element_fields_written=()),
+                1: Loop(inv=lambda S, env, g: self.inner(S, env, g), element_fields_written=("value",))}
+
+    def post(self, S, old, env, result):
+        s, so = env["self"].fields, old["self"].fields
+        G = so["scheme"].length
+        na = old["areas"].length
+        k = z3.Int("pk")
+        return [Cl("combined-result-is-the-sum-over-component-grids-and-areas-of-coefficient-times-component-result",
+                   s["operation"].fields["integral"] == so["operation"].fields["integral"] + T2(G), prop=True),
+                Cl("container-total-moves-by-the-same-sum", s["refinement"].fields["value"] == so["refinement"].fields["value"] + T2(G), prop=True),
+                Cl("every-area-holds-its-column-of-the-sum", z3.ForAll([k], z3.Implies(z3.And(k >= 0, k < na), z3.Select(env["areas"].fields["value"], k) ==
+                                                                                    z3.Select(old["areas"].fields["value"], k) + COL(G, k))), prop=True)]
+
+
+CONTRACTS += [CoarsenGrid(), EvaluateAreaForCallers(),
+              TrueQuery("sparseSpACE/GridOperation.py", "AreaOperation.is_area_operation", "Integration is an area operation (returns True)"),
+              TrueQuery("sparseSpACE/GridOperation.py", "Integration.count_unique_points", "returns True"),
+              TrueQuery("sparseSpACE/Grid.py", "Grid.isNested", "trapezoidal grids are nested (returns True)"),
+              ComputeSolutions()]
+ASSUMPTIONS += ["compute_solutions is verified with the extend-split receiver and Integration; coarsen_grid is abstract (fixed function of (grid, area) per pass)"]
